@@ -87,7 +87,7 @@ sys.addaudithook(_audit)
 # ---------------------------------------------------------------------------------------------
 # names and contents
 
-NAME_CLASSES = ["plain", "space", "unicode", "xml", "mixed"]
+NAME_CLASSES = ["plain", "space", "unicode", "xml", "mixed", "nfd"]
 
 
 def concrete_name(abstract: str, cls: str, is_file: bool) -> str:
@@ -106,6 +106,8 @@ def concrete_name(abstract: str, cls: str, is_file: bool) -> str:
         return base + "_Ünï-日本" + ext
     if cls == "xml":
         return base + "&<x>'q\"" + ext
+    if cls == "nfd":       # decomposed characters, as macOS writes them: not stable under Unicode normalisation
+        return base + "_cafe\u0301 A\u030angstro\u0308m" + ext
     if cls == "mixed":
         k = sum(ord(c) for c in abstract) % 4
         return concrete_name(abstract, NAME_CLASSES[k], is_file)
